@@ -130,6 +130,25 @@ def run(ctx):
             out.extend(alts)
         return out
 
+    def type_conds(v, evs):
+        """constraints on a transition-type carrier gathered along one path"""
+        cs = []
+        for e in evs:
+            if e.kind == 'branch':
+                a = e.atom
+                if a[0] == 'bin' and a[1] == '==' and a[3][0] == 'enum' and a[3][1].startswith(TT + '::'):
+                    cs.append(('eq', a[2], a[3][2], e.pol))
+            elif e.kind == 'case' and e.val is not None:
+                sw = v.blocks[e.bid]
+                labs = [v.blocks[s_].get('label') for s_ in sw['s'] if s_ is not None]
+                vals = [l.get('v') for l in labs if l and l.get('k') == 'case']
+                lab = e.labels
+                if lab and lab.get('k') == 'case':
+                    cs.append(('eq', e.val, lab.get('v'), True))
+                else:
+                    cs.append(('notin', e.val, tuple(vals), True))
+        return cs
+
     def helper(fn, what, stack):
         h = helper_cache.get(fn['key'])
         if h is None:
@@ -238,10 +257,21 @@ def run(ctx):
 
     nroles = [0]
 
-    def member_names(t):
-        return set(x[2].rsplit('::', 1)[-1].strip('_') for x in ex.subterms(t) if x[0] == 'field' and x[1] == ('this',))
+    GENERIC = {'id', 'size', 'get', 'value', 'impl', 'pimpl'}
 
-    def check_roles(f, label, tv, nm):
+    def member_names(t):
+        """names an expression is built from: members of this, and the getters (get_mutex() -> mutex) applied on the way"""
+        ns = set(x[2].rsplit('::', 1)[-1].strip('_') for x in ex.subterms(t) if x[0] == 'field' and x[1] == ('this',))
+        for x in ex.subterms(t):
+            if x[0] == 'call' and isinstance(x[1], str):
+                g = x[1].rsplit('::', 1)[-1]
+                if g.startswith('get_') or g.startswith('is_'):
+                    ns.add(g.split('_', 1)[1].strip('_'))
+            elif x[0] == 'field' and x[1] != ('this',):
+                ns.add(x[2].rsplit('::', 1)[-1].strip('_'))
+        return ns - GENERIC
+
+    def check_roles(f, label, tv, nm, wcarrier):
         """R4: two fields of the same wire type are not exchanged between the two sides.  The writer packs expressions over its members (comm_, mbox_, tag_...), the reader
         stores each unpacked value in a member; when member names are shared by the two classes, a name may not sit at position i on one side and at position j on the other"""
         cf, cev, has_chan = reader[tv]
@@ -249,20 +279,27 @@ def run(ctx):
             return
         fv, rv = A.view(f), A.view(cf)
 
-        def along_paths(view, pick):
-            """the picked events in execution order when every normal path gives the same list, else None (branching or looping records: only their shape is decided, R2)"""
+        def along_paths(view, pick, carrier_test):
+            """the picked events in execution order when every normal path this type can take gives the same list, else None (looping records: only their shape is decided, R2)"""
             seqs = set()
             keep = None
             for p_ in view.paths(max_visits=1, max_paths=400):
                 if p_.exit in ('noreturn', 'cut', 'throw'):
                     continue
-                evs = [x for x in (pick(e) for e in view.path_events(p_)) if x is not None]
+                pev = view.path_events(p_)
+                if not feasible(type_conds(view, pev), carrier_test, tv):
+                    continue
+                evs = [x for x in (pick(e) for e in pev) if x is not None]
                 seqs.add(tuple(repr(x[1:]) for x in evs))
                 keep = evs
             return keep if len(seqs) == 1 else None
-        packs = along_paths(fv, lambda e: (e, member_names(e.args[0]) if e.args else set()) if e.kind == 'call' and e.q == CH + '::pack' and tok_of_call(e, 'pack')[0] != 'type' else None)
-        unp = along_paths(rv, lambda e: (e, member_names(e.lhs) if e.lhs[0] == 'field' else set()) if e.kind == 'assign' and any(x[0] == 'call' and x[1] == CH + '::unpack' for x in ex.subterms(e.rhs)) else None)
-        allun = along_paths(rv, lambda e: (e, 0) if e.kind == 'call' and e.q == CH + '::unpack' else None)
+        tparm = [i for i, p_ in enumerate(cf['params']) if cf.tstr(p_['t']) == TT]
+
+        def rcarrier(t):
+            return t[0] == 'var' and t[1] == 'parm' and any(cf['params'][i]['n'] == t[2] for i in tparm)
+        packs = along_paths(fv, lambda e: (e, member_names(e.args[0]) if e.args else set()) if e.kind == 'call' and e.q == CH + '::pack' and tok_of_call(e, 'pack')[0] != 'type' else None, wcarrier)
+        unp = along_paths(rv, lambda e: (e, member_names(e.lhs) if e.lhs[0] == 'field' else set()) if e.kind == 'assign' and any(x[0] == 'call' and x[1] == CH + '::unpack' for x in ex.subterms(e.rhs)) else None, rcarrier)
+        allun = along_paths(rv, lambda e: (e, 0) if e.kind == 'call' and e.q == CH + '::unpack' else None, rcarrier)
         if not packs or not unp or allun is None or len(packs) != len(unp) or len(allun) != len(unp):
             return
         w = [names for _, names in packs]
@@ -338,7 +375,7 @@ def run(ctx):
                       'writer %s ; reader %s %s' % (' | '.join(show(t) for t in sorted(ws)), reader[tv][1].q.rsplit('::', 1)[-1], ' | '.join(show(t) for t in sorted(rs))),
                       key='R2|%s|%s' % (nm, label))
             if ok:
-                check_roles(f, label, tv, nm)
+                check_roles(f, label, tv, nm, carrier)
                 wn = sorted(set(tuple(x[1] for x in t if x[0] == 'pod') for t in ws))
                 rn = sorted(set(tuple(x[1] for x in t if x[0] == 'pod') for t in rs))
                 if wn != rn:
